@@ -6050,6 +6050,19 @@ impl<'a, 'graph> Builder<'a, 'graph> {
     }
   }
 
+  fn mark_dep_for_queued_dynamic_branch(
+    &mut self,
+    specifier: &ModuleSpecifier,
+    range: &Range,
+  ) {
+    if matches!(specifier.scheme(), "jsr" | "npm")
+      && let Ok(load_specifier) =
+        self.parse_load_specifier_kind(specifier, Some(range))
+    {
+      self.maybe_mark_dep(&load_specifier, Some(range));
+    }
+  }
+
   fn mark_jsr_dep(
     &mut self,
     package_ref: &JsrPackageReqReference,
@@ -6740,6 +6753,9 @@ impl<'a, 'graph> Builder<'a, 'graph> {
               }
             });
           if dep.is_dynamic && !self.in_dynamic_branch {
+            // only one queued branch per specifier gets loaded, so record
+            // the package dependency for this referrer now
+            self.mark_dep_for_queued_dynamic_branch(specifier, range);
             let value = self
               .state
               .dynamic_branches
@@ -6785,6 +6801,7 @@ impl<'a, 'graph> Builder<'a, 'graph> {
               }
             });
           if dep.is_dynamic && !self.in_dynamic_branch {
+            self.mark_dep_for_queued_dynamic_branch(specifier, range);
             self.state.dynamic_branches.insert(
               specifier.clone(),
               PendingDynamicBranch {
